@@ -448,6 +448,11 @@ pub struct Shared {
     /// waker identity the executor handed to the task being polled (lost-wake-up check)
     pub wrong_waker: Vec<(usize, usize)>,
     pub record_events: bool,
+    /// Back-pressure (C18): the key store's connection pool, shared by every provider instance of
+    /// every thread of the run (free connections). poll_ready reserves a connection and is pending
+    /// while none is free; `call` uses the reserved one, or grabs a free one, or fails with "no
+    /// connection available". None = the unbounded key store.
+    pub pool: Option<Arc<Mutex<usize>>>,
 }
 
 impl Shared {
@@ -464,6 +469,7 @@ impl Shared {
             current_task: 0,
             wrong_waker: Vec::new(),
             record_events: true,
+            pool: None,
         }
     }
     pub fn push(&mut self, task: usize, val: usize, kind: EvKind) {
@@ -556,6 +562,16 @@ pub struct SimProvider {
     ready_for_val: usize,
     /// poll_ready has returned Ready(Ok) since the last call (the tower contract)
     ready_ok: bool,
+    /// a pool connection reserved by poll_ready and not yet handed to a call
+    reserved: Option<Arc<Mutex<usize>>>,
+}
+
+impl Drop for SimProvider {
+    fn drop(&mut self) {
+        if let Some(p) = self.reserved.take() {
+            *p.lock().unwrap() += 1;
+        }
+    }
 }
 
 impl SimProvider {
@@ -567,6 +583,7 @@ impl SimProvider {
             ready_polls: 0,
             ready_for_val: usize::MAX,
             ready_ok: false,
+            reserved: None,
         }
     }
 }
@@ -627,6 +644,21 @@ impl tower::Service<GetSigningKeyRequest> for SimProvider {
             });
             return Poll::Ready(Err(make_provider_error(e, val)));
         }
+        if let (Some(pool), None) = (sh.pool.clone(), &self.reserved) {
+            let mut free = pool.lock().unwrap();
+            if *free == 0 {
+                drop(free);
+                sh.push(self.task, val, EvKind::PollReady {
+                    result: "pending",
+                });
+                // woken when nothing else is runnable on this executor; other threads run meanwhile
+                register_wake(&mut sh, WakeMode::Withheld, cx.waker(), self.task);
+                return Poll::Pending;
+            }
+            *free -= 1;
+            drop(free);
+            self.reserved = Some(pool);
+        }
         sh.push(self.task, val, EvKind::PollReady {
             result: "ready",
         });
@@ -653,8 +685,22 @@ impl tower::Service<GetSigningKeyRequest> for SimProvider {
         let sc = sh.script(val);
         // like many real tower services (buffers, pools, limiters) this one does not work when it
         // is called without having been driven to readiness first
-        let unready = !self.ready_ok;
+        let mut unready = !self.ready_ok;
         self.ready_ok = false;
+        let mut conn = self.reserved.take();
+        let mut no_conn = false;
+        if let (Some(pool), None) = (sh.pool.clone(), &conn) {
+            // a pooled key store called without a reservation takes a free connection if there is one
+            unready = false;
+            let mut free = pool.lock().unwrap();
+            if *free > 0 {
+                *free -= 1;
+                drop(free);
+                conn = Some(pool);
+            } else {
+                no_conn = true;
+            }
+        }
         ProvFuture {
             shared: self.shared.clone(),
             task: self.task,
@@ -664,6 +710,8 @@ impl tower::Service<GetSigningKeyRequest> for SimProvider {
             script: sc,
             resolved: false,
             unready,
+            conn,
+            no_conn,
         }
     }
 }
@@ -677,6 +725,8 @@ pub struct ProvFuture {
     script: ProvScript,
     resolved: bool,
     unready: bool,
+    conn: Option<Arc<Mutex<usize>>>,
+    no_conn: bool,
 }
 
 impl Future for ProvFuture {
@@ -701,6 +751,15 @@ impl Future for ProvFuture {
             sh = this.shared.lock().unwrap();
         }
         let req = this.req.take().expect("provider future polled after completion");
+        if let Some(p) = this.conn.take() {
+            *p.lock().unwrap() += 1;
+        }
+        if this.no_conn {
+            sh.push(this.task, this.val, EvKind::FutPoll {
+                result: "err",
+            });
+            return Poll::Ready(Err(Box::new(HarnessError(format!("{} key store: no connection available", PROVIDER_MSG_PREFIX)))));
+        }
         if this.unready {
             sh.push(this.task, this.val, EvKind::FutPoll {
                 result: "err",
@@ -752,6 +811,9 @@ impl Future for ProvFuture {
 
 impl Drop for ProvFuture {
     fn drop(&mut self) {
+        if let Some(p) = self.conn.take() {
+            *p.lock().unwrap() += 1;
+        }
         if let Ok(mut sh) = self.shared.lock() {
             let resolved = self.resolved;
             sh.push(self.task, self.val, EvKind::FutDrop {
